@@ -100,9 +100,15 @@ def make_ds(rng, xr, fmt):
     else:
         coords["site"] = np.arange(shape[1]) if rng.random() < 0.5 else np.arange(1, shape[1] + 1)
     ds = xr.DataArray(A, dims=lead + ["freq", "dir"], coords=coords, name="efth").to_dataset()
+    if grid and rng.random() < 0.4:
+        # the same labelled grid held in another dimension order (lon before lat, time not first)
+        od = [str(x_) for x_ in rng.permutation(lead)] + ["freq", "dir"]
+        ds = ds.transpose(*od)
+        ds["efth"] = (tuple(od), np.ascontiguousarray(ds["efth"].values))
     if not grid:
-        lon = np.round(rng.uniform(0, 359, shape[1]), 5)
-        lat = np.round(rng.uniform(-70, 70, shape[1]), 5)
+        dec = 7 if fmt in ("netcdf", "json") else 5           # formats that store positions as doubles keep every digit
+        lon = np.round(rng.uniform(0, 359, shape[1]), dec)
+        lat = np.round(rng.uniform(-70, 70, shape[1]), dec)
         ds["lon"] = (("site",), lon)
         ds["lat"] = (("site",), lat)
     return ds, kinds, order
@@ -247,7 +253,8 @@ def compare(rec, base, key, ds, back, kinds, opts):
         else:
             q = pb[n]
             if base != "ww3" or True:
-                if abs(q[2] - lon) > 1.1e-5 or abs(q[3] - lat) > 1.1e-5:
+                ptol = 1e-9 if base in ("netcdf", "json") else 1.1e-5
+                if abs(q[2] - lon) > ptol or abs(q[3] - lat) > ptol:
                     rec.bad(op, key, {"site_index": n, "lonlat_written": [lon, lat], "lonlat_read": [q[2], q[3]]}, "roundtrip-lonlat-differ:" + base)
                     return
         Ew = ds["efth"].isel(sel).transpose("time", "freq", "dir").values.astype("float64")
